@@ -10,7 +10,9 @@ QUICK_S = 60
 THOROUGH_S = 900
 TECHNIQUE = ('runtime monitoring: the click commands are invoked in-process (CliRunner) on generated command lines; exit code, '
              'log records and the keyword arguments received by a recording generator are compared with a small argv model')
-RULE = ('check: 1-4 model files (valid; syntax error; unknown reference at a known line/col) in random order with --grammar; '
+RULE = ('check: 1-4 model files (valid; syntax error; unknown reference at a known line/col; text of another language) in random '
+        'order with --grammar, with --language, or with neither (two registered languages whose file patterns share the last '
+        'extension, files of both in one call); '
         'generate: 0-5 custom arguments (names with dashes / underscores / mixed, with values incl. quoted ones and values that start with a single dash, bare flags at '
         'the end, before another option, between model files) x generators without declared parameters and with declared '
         '(mandatory / optional) parameters x 1-3 model files. Oracle: check exits 0 iff every file loads, else 1 and the '
@@ -18,7 +20,7 @@ RULE = ('check: 1-4 model files (valid; syntax error; unknown reference at a kno
         'with dashes turned into underscores (value or True), rejects undeclared / missing mandatory ones with exit 1 and '
         'calls the generator once per model file otherwise. distinct = command line shape; non-trivial = a dashed name, a bare '
         'flag, a declared-parameter generator or a failing file present')
-REQUIRED = {'check_invocations': 300, 'check_failures_located': 100, 'generate_invocations': 500, 'bare_flags': 100,
+REQUIRED = {'check_invocations': 300, 'check_mode_pattern': 80, 'check_mode_language': 40, 'check_two_languages_in_one_call': 30, 'check_failures_located': 100, 'generate_invocations': 500, 'bare_flags': 100,
             'dashed_names': 200, 'declared_generators': 100, 'undeclared_rejected': 30, 'missing_mandatory_rejected': 30,
             'values_starting_with_dash': 50}
 
@@ -88,40 +90,74 @@ def one(ctx, i, rep=None):
         shutil.rmtree(tmp, ignore_errors=True)
 
 
+GRAMMAR2 = '''
+Model: (defs+=Def | refs+=Ref)*;
+Def: 'make' name=ID;
+Ref: 'use' target=[Def];
+'''
+WORDS = {1: ('def', 'ref'), 2: ('make', 'use')}
+
+
 def check_case(ctx, r, tmp, gpath, rep):
+    """mode grammar: --grammar file; mode language: --language name; mode pattern: no option, the language of every
+    file is found through the registered file patterns (two languages whose patterns share the last extension)"""
+    from textx import register_language, clear_language_registrations, LanguageDesc, metamodel_from_str
+    mode = r.choice(['grammar', 'grammar', 'language', 'pattern', 'pattern'])
     files = []
     first_bad = None
     for k in range(r.randint(1, 4)):
-        kind = r.choice(['ok', 'ok', 'syntax', 'unknown'])
+        lang = r.choice([1, 2]) if mode == 'pattern' else 1
+        d, u = WORDS[lang]
+        kind = r.choice(['ok', 'ok', 'syntax', 'unknown', 'other_language'] if mode == 'pattern' else ['ok', 'ok', 'syntax', 'unknown'])
         lead = r.choice(['', '\n', '\n\n  ', '   '])
-        body = 'def a def b\nref a\n'
-        loc = None
+        body = '%s a %s b\n%s a\n' % (d, d, u)
         if kind == 'syntax':
             text = body + lead + '@@ junk\n'
             off = len(body + lead)
         elif kind == 'unknown':
-            text = body + lead + 'ref nowhere\n'
-            off = len(body + lead) + 4
+            text = body + lead + '%s nowhere\n' % u
+            off = len(body + lead) + len(u) + 1
+        elif kind == 'other_language':
+            # a text of the OTHER language in a file whose name says this language: a syntax error at its first word
+            od, ou = WORDS[3 - lang]
+            text = lead + '%s a\n' % od
+            off = len(lead)
         else:
             text = body
-        p = os.path.join(tmp, 'm%d.mdl' % k)
+        ext = {'grammar': '.mdl', 'language': '.mdl', 'pattern': '.l%d.mdl' % lang}[mode]
+        p = os.path.join(tmp, 'm%d%s' % (k, ext))
         with open(p, 'w') as f:
             f.write(text)
         if kind != 'ok':
             line = text.count('\n', 0, off) + 1
             col = off - (text.rfind('\n', 0, off) + 1) + 1
-            loc = (line, col)
             if first_bad is None:
-                first_bad = (p, loc, kind)
-        files.append((p, kind))
-    args = ['check', '--grammar', gpath] + [p for p, _ in files]
-    res, logs = invoke(args)
+                first_bad = (p, (line, col), kind)
+        files.append((p, kind, lang))
+    args = ['check']
+    if mode == 'grammar':
+        args += ['--grammar', gpath]
+    elif mode == 'language':
+        args += ['--language', r.choice(['tvlang1', 'TvLang1'])]
+    args += [p for p, _, _ in files]
+    clear_language_registrations()
+    try:
+        if mode != 'grammar':
+            register_language(LanguageDesc('tvlang1', pattern='*.l1.mdl' if mode == 'pattern' else '*.mdl', description='l1',
+                                           metamodel=lambda: metamodel_from_str(GRAMMAR)))
+            register_language(LanguageDesc('tvlang2', pattern='*.l2.mdl', description='l2', metamodel=lambda: metamodel_from_str(GRAMMAR2)))
+        res, logs = invoke(args)
+    finally:
+        clear_language_registrations()
     ctx.count('check_invocations')
-    wit = {'argv': args, 'files': [(os.path.basename(p), k) for p, k in files], 'exit_code': res.exit_code, 'log': logs[-5:]}
-    ctx.case(('check', tuple(k for _, k in files)), first_bad is not None, wit if ctx.evaluations < 2 else None)
+    ctx.count('check_mode_' + mode)
+    if mode == 'pattern' and len({l for _, _, l in files}) == 2:
+        ctx.count('check_two_languages_in_one_call')
+    wit = {'argv': args, 'files': [(os.path.basename(p), k) for p, k, _ in files], 'exit_code': res.exit_code, 'log': logs[-5:]}
+    ctx.case(('check', mode, tuple((k, l) for _, k, l in files)), first_bad is not None, wit if ctx.evaluations < 2 else None)
     exp = 0 if first_bad is None else 1
     if res.exit_code != exp:
-        ctx.violation(None, 'textx check exited with %r, expected %d (%s)' % (res.exit_code, exp, [k for _, k in files]), wit, rep)
+        ctx.violation(None, 'textx check (%s) exited with %r, expected %d (%s)' % (mode, res.exit_code, exp, [(k, l) for _, k, l in files]), wit, rep)
         return
     if first_bad:
         ctx.count('check_failures_located')
